@@ -14,6 +14,72 @@ PARTIAL = ["the grammar side (statement text -> parser-output dict for constrain
 ASSUMES = ["harness/gen_table.expected_table is the reading of C02 for the fragment"]
 
 
+def clause_args(t, rng):
+    """gen_table AST (check items dropped) -> arguments of the tabc_spec command (Spec/Table.v tablec_of_args)"""
+    from props import C01 as P1
+    a = P1.coq_args(t, rng) + ["ITEMS"]
+    for it in t["items"]:
+        cons = [P1.kwc(rng, "CONSTRAINT"), it[1]] if it[1] else ["", ""]
+        if it[0] == "pk":
+            a += ["PK"] + cons + [P1.kwc(rng, "PRIMARY"), P1.kwc(rng, "KEY"), str(len(it[2]))] + list(it[2])
+        elif it[0] == "unique":
+            a += ["UQ"] + cons + [P1.kwc(rng, "UNIQUE"), "", str(len(it[2]))] + list(it[2])
+        elif it[0] == "fk":
+            r = it[3]
+            a += ["FK"] + cons + [P1.kwc(rng, "FOREIGN"), P1.kwc(rng, "KEY"), str(len(it[2]))] + list(it[2])
+            a += [P1.kwc(rng, "REFERENCES"), r["schema"] or "", r["table"], str(len(r["columns"]))] + list(r["columns"])
+            a += [P1.kwc(rng, "ON"), P1.kwc(rng, "DELETE"), r["on_delete"]] if r["on_delete"] else ["", "", ""]
+            a += [P1.kwc(rng, "ON"), P1.kwc(rng, "UPDATE"), r["on_update"]] if r["on_update"] else ["", "", ""]
+    return a
+
+
+def theorem_forms(ctx, res):
+    """the forms under C02_table_clauses_exact / C02_inline_keys_end_to_end: the extracted Coq denote (parser stage) and the
+    extracted Output.format on it (what run() must report)"""
+    from props import C01 as P1
+    rng = ctx.rng
+    n = 1200 if ctx.thorough else 250
+    asts = []
+    for i in range(n):
+        t = G.gen_table(rng, constraints=True, ncols=rng.choice([2, 3, 4, 6, 9]))
+        t["items"] = [it for it in t["items"] if it[0] != "check"]
+        if i % 5 == 0 and len(t["cols"]) >= 3:       # long lists, several clauses of a kind
+            names = [c["name"] for c in t["cols"]]
+            t["items"].append(("unique", "uq_all", names))
+            t["items"].append(("unique", None, names[:1]))
+        asts.append((t, clause_args(t, rng)))
+    for norm in (False, True):
+        sp = ctx.model.map([("tabc_spec", ["1" if norm else "0"] + a) for _, a in asts])
+        texts = [P1.text_of_lexemes(s_["lexemes"], rng) if "lexemes" in s_ else None for s_ in sp]
+        SC = ctx.model.map([("scan", [t or ""]) for t in texts])
+        TR = ctx.impl.map([{"op": "trace", "s": t or "", "ctor": {"normalize_names": norm}} for t in texts])
+        RU = ctx.impl.map([{"op": "run", "ddl": (t or "").rstrip() + ";", "ctor": {"normalize_names": norm}} for t in texts])
+        res.evaluations += 2 * len(asts)
+        for (t, a), s_, x, sc, tr, ru in zip(asts, sp, texts, SC, TR, RU):
+            if not s_.get("wf") or "ok" not in s_.get("denote", {}):
+                res.count("theorem_form:not_wf")
+                continue
+            res.count("theorem_form:clauses:%d" % len(t["items"]))
+            if "ok" not in sc or [list(l) for l in sc["ok"]] != [list(l) for l in s_["lexemes"]]:
+                res.violation("correspondence", "the scanner model does not cut the rendered statement into the lexemes of the specification",
+                              stmt=x, oracle="scan")
+                continue
+            io = impl_outcome(tr)
+            got = canon_impl(io[1]["result"]) if io[0] == "ok" and io[1]["result"] is not None else ("raise/none", str(io)[:200])
+            if got != canon_model(s_["denote"]["ok"]):
+                res.violation("input", "parser stage: the table entity differs from the Coq specification (Table.denote_c): %s" %
+                              (json.dumps(py_of_impl(io[1]["result"]))[:600] if io[0] == "ok" else str(io)), stmt=x, norm=norm, args=a,
+                              oracle="coq_denote")
+                continue
+            rep = s_.get("reported", {})
+            if "ok" in rep:
+                if "ok" not in ru or canon_impl(ru["ok"]) != canon_model(rep["ok"]):
+                    res.violation("input", "run(): the reported table differs from the extracted Output.format on the specified entity",
+                                  ddl=x.rstrip() + ";", norm=norm, args=a, oracle="coq_reported")
+                    continue
+            res.nontrivial.add(x)
+
+
 def run(ctx, res):
     rng = ctx.rng
     n = 6000 if ctx.thorough else 700
@@ -54,6 +120,7 @@ def run(ctx, res):
         # ---- correspondence D (lexer + LR + semantic actions incl. the table-level clauses) and F (whole run) ------------------
         corr_parse(ctx, res, [s_ for a in st if "ok" in a for s_ in a["ok"]["statements"]])
         corr_run(ctx, res, sample)
+        theorem_forms(ctx, res)
     res.samples.append({"ddl": texts[0], "expected": G.expected_table(tabs[0])})
     res.samples.append({"ddl": texts[7]})
 
